@@ -42,6 +42,13 @@ func c08Sessions() []c08Session {
 		{"big-data", [][]byte{base[0], base[1], base[2], base[3], tsgu.Data(big), base[4], base[7]}},
 		{"long-cookie", [][]byte{base[0], tsgu.TunnelCreate(lc, true), base[2], base[3], base[4], base[7]}},
 	}
+	// 24 data packets of 4000 bytes: coalesced they exceed 64 KiB in one transport unit
+	bulk := [][]byte{base[0], base[1], base[2], base[3]}
+	for i := 0; i < 24; i++ {
+		bulk = append(bulk, tsgu.Data(pattern(4000, byte(i))))
+	}
+	bulk = append(bulk, base[7])
+	s = append(s, c08Session{"bulk-96k", bulk})
 	return s
 }
 
@@ -181,6 +188,24 @@ func c08(env *Env, rep *Report) {
 						pos = append(pos, i)
 					}
 				}
+			}
+			if ss.Name == "bulk-96k" {
+				// too long for the cut families: groupings of the data packets only
+				for _, burst := range []bool{false, true} {
+					for _, per := range []int{24, 17, 12, 8, 3} {
+						var cuts []int
+						for i := 3; i < len(bounds)-1; i++ {
+							if i == 3 || (i-3)%per == 0 {
+								cuts = append(cuts, bounds[i])
+							}
+						}
+						check("coalesce", cutStream(stream, cuts), burst)
+					}
+					check("coalesce", cutStream(stream, nil), burst)
+					check("one-cut", cutStream(stream, []int{65536}), burst)
+					check("two-cuts", cutStream(stream, []int{65535, 65545}), burst)
+				}
+				continue
 			}
 			for _, burst := range []bool{false, true} {
 				// every single cut
